@@ -562,11 +562,18 @@ mod query {
              FROM issues
              WHERE repo = ?1
              AND issue->>'$.state.status' = ?2
+             AND issue->>'$.state.reason' IS ?3
              ORDER BY id
             ",
         )?;
+        // The close reason is part of the state.
+        let reason = match serde_json::to_value(filter)?.get("reason") {
+            Some(serde_json::Value::String(reason)) => sql::Value::String(reason.to_owned()),
+            _ => sql::Value::Null,
+        };
         stmt.bind((1, rid))?;
         stmt.bind((2, sql::Value::String(filter.to_string())))?;
+        stmt.bind((3, reason))?;
         Ok(IssuesIter {
             inner: stmt.into_iter(),
         })
